@@ -157,6 +157,8 @@ def seed_documents() -> dict:
             docs[f] = json.loads(p.read_text()) if f.endswith(".json") else YAML(typ="safe").load(p)
     for f in sorted((e2e / "documents_with_errors").glob("*.y*ml")):
         docs["err/" + f.name] = YAML(typ="safe").load(f)
+    from .. import zoo
+    docs["zoo-warn"] = zoo.zoo_warn()
     return docs
 
 
